@@ -14,7 +14,7 @@ for d in sorted(glob.glob('/verif/seeded/*'), key=lambda p: (p.split('/')[-1].sp
     note = det.get('note', '')
     if note.startswith('MISSED'):
         caught = 'yes, after strengthening (missed first)'
-    rows.append(f"| {m['id']} | {what} | {caught} | {by} | {det.get('first_violation_plan_index','')} |")
+    rows.append(f"| {m.get('id', d.split('/')[-1])} | {what} | {caught} | {by} | {det.get('first_violation_plan_index','')} |")
 table = ["| id | change | caught by quick tier | violation class | first plan index |", "|---|---|---|---|---|"] + rows
 sens = []
 rp = '/verif/sensitivity/RESULTS.txt'
